@@ -51,7 +51,9 @@ type DeathPolicy interface {
 type job struct {
 	w        Workload
 	from, to int64
-	alone    bool
+	// retry: this job repeats, in a fresh process, the history [from, to-1)
+	// that preceded a case (to-1) on which the watchdog fired
+	retry bool
 }
 
 type jobResult struct {
@@ -64,6 +66,11 @@ type jobResult struct {
 }
 
 const defaultBatchTimeout = 900 * time.Second
+
+// defaultCaseTimeout is the wall-clock allowance for a single case; cases take
+// milliseconds to a few seconds, so this is two orders of magnitude of slack
+// for a loaded machine.
+const defaultCaseTimeout = 300 * time.Second
 
 func envInt(name string, def int) int {
 	if v := os.Getenv(name); v != "" {
@@ -183,9 +190,31 @@ func runJob(check Check, o *Options, dir string, id int, j job) jobResult {
 	}
 	done := make(chan error, 1)
 	go func() { done <- cmd.Wait() }()
-	select {
-	case <-done:
-	case <-time.After(timeout):
+	caseTimeout := defaultCaseTimeout
+	if j.w.CaseTimeoutS > 0 {
+		caseTimeout = time.Duration(j.w.CaseTimeoutS) * time.Second
+	}
+	start := time.Now()
+	lastSize, lastGrowth := int64(-1), start
+	tick := time.NewTicker(500 * time.Millisecond)
+	fired := false
+wait:
+	for {
+		select {
+		case <-done:
+			break wait
+		case now := <-tick.C:
+			if st, err := os.Stat(jr); err == nil && st.Size() != lastSize {
+				lastSize, lastGrowth = st.Size(), now
+			}
+			if now.Sub(start) > timeout || now.Sub(lastGrowth) > caseTimeout {
+				fired = true
+				break wait
+			}
+		}
+	}
+	tick.Stop()
+	if fired {
 		cmd.Process.Signal(syscall.SIGQUIT)
 		select {
 		case <-done:
@@ -350,19 +379,35 @@ func Run(check Check, o *Options) int {
 							total.Inconclusive = append(total.Inconclusive, "more than 200 worker deaths; giving up on requeueing")
 							break
 						}
-						if r.timeout && !j.alone {
-							notes = append(notes, fmt.Sprintf("watchdog fired in %s[%d,%d) at case %d; re-running that case alone", j.w.Name, j.from, j.to, i))
-							queue = append(queue, job{w: j.w, from: i, to: i + 1, alone: true})
-						} else if r.timeout {
-							v := Violation{Property: id, Class: "hang", Workload: j.w.Name, Index: i,
-								Detail: "case did not finish alone within the watchdog limit\n" + r.stderr, Case: describe(j.w.Name, i)}
+						requeue := func(from, to int64) {
+							if from < to {
+								queue = append(queue, job{w: j.w, from: from, to: to})
+							}
+						}
+						switch {
+						case r.timeout && !(j.retry && i == j.to-1):
+							// first firing at this case: repeat the same history up to
+							// and including it in a fresh process (a hang may depend on
+							// what the process did before, so the case is not run alone)
+							notes = append(notes, fmt.Sprintf("watchdog fired in %s[%d,%d) at case %d; repeating [%d,%d] in a fresh process", j.w.Name, j.from, j.to, i, j.from, i))
+							if j.w.Serial {
+								total.Inconclusive = append(total.Inconclusive, fmt.Sprintf("serial workload %s: watchdog fired at case %d", j.w.Name, i))
+								break
+							}
+							queue = append(queue, job{w: j.w, from: j.from, to: i + 1, retry: true})
+							requeue(i+1, j.to)
+						case r.timeout:
+							v := Violation{Property: id, Class: "hang", Workload: j.w.Name, Index: i, HistoryFrom: &j.from,
+								Detail: fmt.Sprintf("the case did not finish within the watchdog limit, twice, each time in a fresh process that had run cases [%d,%d) before it\n", j.from, i) + r.stderr, Case: describe(j.w.Name, i)}
 							if hangViol {
 								total.Violations = append(total.Violations, v)
 								fatal++
 							} else {
-								total.Inconclusive = append(total.Inconclusive, fmt.Sprintf("%s/%d: did not finish alone within the watchdog limit", j.w.Name, i))
+								total.Inconclusive = append(total.Inconclusive, fmt.Sprintf("%s/%d: did not finish within the watchdog limit (twice)", j.w.Name, i))
 							}
-						} else {
+							total.Cases++
+							requeue(j.from, i)
+						default:
 							v := Violation{Property: id, Class: "worker-death", Workload: j.w.Name, Index: i,
 								Detail: "the process running this case died\n" + r.stderr, Case: describe(j.w.Name, i)}
 							if deathViol {
@@ -372,6 +417,12 @@ func Run(check Check, o *Options) int {
 								total.Inconclusive = append(total.Inconclusive, fmt.Sprintf("%s/%d: worker died: %s", j.w.Name, i, firstLine(r.stderr)))
 							}
 							total.Cases++
+							if j.w.Serial {
+								total.Inconclusive = append(total.Inconclusive, fmt.Sprintf("serial workload %s interrupted at case %d", j.w.Name, i))
+							} else {
+								requeue(j.from, i)
+								requeue(i+1, j.to)
+							}
 						}
 						if fatal >= 4 {
 							// the verdict is settled; every further death costs a watchdog period
@@ -380,15 +431,6 @@ func Run(check Check, o *Options) int {
 								total.Inconclusive = append(total.Inconclusive, "exploration stopped early after 4 fatal violations")
 							}
 							queue = nil
-						} else if j.w.Serial {
-							total.Inconclusive = append(total.Inconclusive, fmt.Sprintf("serial workload %s interrupted at case %d", j.w.Name, i))
-						} else {
-							if i > j.from {
-								queue = append(queue, job{w: j.w, from: j.from, to: i})
-							}
-							if i+1 < j.to {
-								queue = append(queue, job{w: j.w, from: i + 1, to: j.to})
-							}
 						}
 					}
 					mu.Unlock()
@@ -468,6 +510,9 @@ func Run(check Check, o *Options) int {
 		path := filepath.Join(o.Root, "replays", id, name)
 		rp := map[string]any{"property": id, "tier": o.Tier, "seed": o.Seed, "workload": g.first.Workload,
 			"index": g.first.Index, "class": class, "detail": g.first.Detail, "case": g.first.Case, "occurrences": g.n}
+		if g.first.HistoryFrom != nil {
+			rp["history_from"] = *g.first.HistoryFrom
+		}
 		b, _ := json.MarshalIndent(rp, "", " ")
 		os.WriteFile(path, b, 0o644)
 		fmt.Printf("VIOLATION property=%s replay=%s\n", id, path)
@@ -611,6 +656,8 @@ func Replay(check Check, root, path string) int {
 		Seed     int64  `json:"seed"`
 		Workload string `json:"workload"`
 		Index    int64  `json:"index"`
+		History  *int64 `json:"history_from"`
+		Class    string `json:"class"`
 	}
 	if err := json.Unmarshal(b, &rp); err != nil {
 		fmt.Println(err)
@@ -623,6 +670,21 @@ func Replay(check Check, root, path string) int {
 	if d, ok := check.(Describer); ok {
 		cj, _ := json.MarshalIndent(d.Describe(NewCtx(check.ID(), rp.Tier, rp.Seed, rp.Workload, rp.Index, NewResult()), rp.Workload, rp.Index), "", " ")
 		fmt.Printf("case %s/%d:\n%s\n", rp.Workload, rp.Index, cj)
+	}
+	if rp.History != nil {
+		// the recorded violation depends on what the process did before
+		fmt.Printf("running cases %s/[%d,%d) first (recorded history)\n", rp.Workload, *rp.History, rp.Index)
+		for i := *rp.History; i < rp.Index; i++ {
+			check.Run(NewCtx(check.ID(), rp.Tier, rp.Seed, rp.Workload, i, NewResult()), rp.Workload, i)
+		}
+	}
+	if rp.Class == "hang" {
+		fmt.Println("the recorded case did not finish: if it does not finish within the limit now, the hang is reproduced")
+		go func() {
+			time.Sleep(defaultCaseTimeout)
+			fmt.Printf("VIOLATION property=%s replay=%s\n", check.ID(), path)
+			os.Exit(1)
+		}()
 	}
 	check.Run(c, rp.Workload, rp.Index)
 	known, _ := LoadKnown(filepath.Join(root, "known_findings.json"))
